@@ -590,6 +590,10 @@ class Inliner(object):
     if how != 'resolved' or len(cs) != 1:
       return None
     callee, via = cs[0]
+    if via == 'event' and isinstance(f, ast.Attribute) and isinstance(f.value, ast.Name) and f.value.id == 'self' and \
+       callee.name == '__call__' and callee.cls is not None and callee.cls.name != 'Event' and \
+       self._ctor_fields(fn, f.attr, callee.cls) is not None:
+      return callee           # self.helper(...) where helper is a small callable object configured by its constructor
     if via in ('ctor', 'event'):
       return None
     if callee.module is not fn.module:
@@ -600,6 +604,63 @@ class Inliner(object):
     if callee.name in NEVER_INLINE or callee.is_property:
       return None
     return callee
+
+  def _ctor_fields(self, fn, attr, K):
+    """{field: argument expression} when `self.<attr>` of fn's class is created in exactly one place as K(<args>) (a class-level
+    assignment, or `self.attr = K(...)` in __init__), K.__init__ only stores its parameters in attributes of the same name
+    (`self.p = p`), nothing else in the program assigns those attributes, and each argument is a constant or a dotted
+    global name (os.sep).  None otherwise."""
+    cls = getattr(fn, 'cls', None)
+    if cls is None or K is None:
+      return None
+    created = []
+    v = cls.attrs.get(attr)
+    if v is not None:
+      created.append(v)
+    for m in cls.methods.values():
+      for st in ast.walk(m.node):
+        if isinstance(st, ast.Assign) and any(isinstance(t, ast.Attribute) and t.attr == attr and isinstance(t.value, ast.Name) and
+                                              t.value.id == 'self' for t in st.targets):
+          created.append(st.value)
+    if len(created) != 1 or not (isinstance(created[0], ast.Call) and isinstance(created[0].func, ast.Name) and
+                                 created[0].func.id == K.name) or created[0].keywords and any(kw.arg is None for kw in created[0].keywords):
+      return None
+    init = K.methods.get('__init__')
+    if init is None or isinstance(init.node, ast.Lambda):
+      return None
+    params = init.params[1:]
+    fields = {}
+    for st in init.node.body:
+      if isinstance(st, ast.Expr) and isinstance(st.value, ast.Constant):
+        continue
+      if isinstance(st, ast.Assign) and len(st.targets) == 1 and isinstance(st.targets[0], ast.Attribute) and \
+         isinstance(st.targets[0].value, ast.Name) and st.targets[0].value.id == init.params[0] and isinstance(st.value, ast.Name) and \
+         st.value.id in params:
+        fields[st.targets[0].attr] = st.value.id
+        continue
+      return None
+    call = created[0]
+    if len(call.args) > len(params):
+      return None
+    given = dict(zip(params, call.args))
+    for kw in call.keywords:
+      given[kw.arg] = kw.value
+    a = init.node.args
+    defaults = dict(zip([x.arg for x in a.args][len(a.args) - len(a.defaults):], a.defaults)) if a.defaults else {}
+    out = {}
+    for fld, par in fields.items():
+      e = given.get(par, defaults.get(par))
+      if e is None or not (isinstance(e, ast.Constant) or (_plain_element(e) and isinstance(e, ast.Attribute))):
+        return None
+      out[fld] = e
+    # the fields are written nowhere else
+    for m_ in self.repo.modules.values():
+      for x in ast.walk(m_.tree):
+        if isinstance(x, ast.Attribute) and x.attr in out and isinstance(x.ctx, (ast.Store, ast.Del)):
+          inside_init = any(y is x for y in ast.walk(init.node))
+          if not inside_init:
+            return None
+    return out
 
   def _foreign_names(self, callee, fn):
     """{name: (binding, local alias)} for the module-level names the foreign helper reads, or None when one of them cannot be
@@ -796,6 +857,17 @@ class Inliner(object):
             return ast.copy_location(ast.Constant(value=subst[n.id].value), n)
           return n
       new_body = [_Sub().visit(st) for st in new_body]
+    if callee.name == '__call__' and isinstance(f, ast.Attribute) and isinstance(f.value, ast.Name) and f.value.id == 'self':
+      flds = self._ctor_fields(fn, f.attr, callee.cls)
+      selfname = rename.get(params[0], params[0]) if params else None
+      if flds and selfname:
+        class _F(ast.NodeTransformer):
+          def visit_Attribute(self, n):
+            self.generic_visit(n)
+            if isinstance(n.value, ast.Name) and n.value.id == selfname and n.attr in flds and isinstance(n.ctx, ast.Load):
+              return ast.copy_location(_clone(flds[n.attr]), n)
+            return n
+        new_body = [_F().visit(st) for st in new_body]
     tmp = '__ret%d' % k
     if mode == 'expr':
       new_body = _drop_result(new_body, tmp)
